@@ -79,6 +79,7 @@ struct Prov {
   std::vector<uint32_t> addr_ttls;
   std::vector<std::pair<std::string, uint32_t>> cnames;   // (owner lower, ttl)
   bool cookie_valid = true; bool carried_server_cookie = false; int outcome = -1; size_t txs_at_injection = 0;
+  int on_current_conn = -1;   // forged packets: was the targeted query assigned to the receiving socket when the bytes were read (-1 not evaluated)
 };
 
 struct SockCall { int64_t t; std::string call; int fd; long rv; int err; size_t len; };
@@ -105,6 +106,17 @@ struct World {
   static void cb_tvnow(ares_timeval_t *tv) { tv->sec = W()->now_us / 1000000; tv->usec = (unsigned int)(W()->now_us % 1000000); }
   static void cb_rand(unsigned char *buf, size_t len) { for (size_t i = 0; i < len; i++) buf[i] = W()->rand_byte(); }
   uint64_t hash(const std::string &s) const { return vf::fnv1a(s.data(), s.size(), seed * 1099511628211ULL + 1469598103934665603ULL); }
+
+  // ---- ground truth for "the connection the query is currently assigned to": read from the library's own index at the moment
+  //      the bytes are handed over (the monitor checks the acceptance filter, not this bookkeeping)
+  ares_channel_t *chan = nullptr;
+  void note_assignment(int fd) {
+    if (!chan) return;
+    for (auto &p : provs) if (!p.genuine && p.fd == fd && p.on_current_conn < 0 && (p.forgery == "late" || p.forgery == "wrongsock")) {
+      ares_query_t *q = (ares_query_t *)ares_htable_szvp_get_direct(chan->queries_by_qid, p.qid);
+      p.on_current_conn = (q && q->conn && q->conn->fd == fd) ? 1 : 0;
+    }
+  }
 
   // ---- sockets
   std::vector<VSock> socks; int next_fd = 100;
@@ -300,6 +312,7 @@ struct World {
   static ares_ssize_t s_recvfrom(ares_socket_t fd, void *buf, size_t len, int, struct sockaddr *from, ares_socklen_t *fromlen, void *) {
     World &w = *W(); VSock *s = w.checked("arecvfrom", fd); if (!s) { errno = EBADF; return -1; }
     int e = w.fault("arecvfrom"); if (e) { w.log("arecvfrom", fd, -1, e); errno = e; return -1; }
+    w.note_assignment(fd);
     if (!s->tcp) {
       for (size_t i = 0; i < s->inq.size(); i++) if (s->inq[i].at <= w.now_us) {
         Dgram d = s->inq[i]; s->inq.erase(s->inq.begin() + (long)i);
